@@ -6,6 +6,16 @@
                   blockchain/statebackend does, and a transcription of the handlers of rpc/v8, v9, v10
                   (helpers.go blockHeaderByID / stateByBlockID / l1AcceptedBlockNumber / isL1Verified,
                   block.go, transaction.go, state_update.go, storage.go, nonce.go, class.go).
+   Classes (session 4): every stored block delivers class definitions (opaque definition ids) for the class
+                  hashes it declares (Cairo-0: deprecated_declared_classes, Sierra: declared_classes) and,
+                  as the synchroniser does for old blocks, for undeclared class hashes its deployments
+                  reference ([b_extra]); the code keeps one table hash -> (declared-at, definition), history
+                  readers compare declared-at with their block number, RevertHead deletes the classes its
+                  block declares and (since /repo 007ff78) the classes of its deployed contracts, when their
+                  declared-at is the reverted block (core/state Revert, core/deprecatedstate
+                  removeDeclaredClasses / removeDeployedContractClasses).
+   Payloads (session 4): every transaction, receipt and header carries an opaque payload id (the complete
+                  JSON object the harness compares), so that agreement of the methods can be stated.
    No proofs in this file; it is extracted to OCaml and run against the Go code. *)
 From Coq Require Import List NArith ZArith Bool.
 Import ListNotations.
@@ -41,7 +51,20 @@ Record diff := {
   d_replace : list (addr * felt);
   d_nonces : list (addr * felt);
   d_storage : list (addr * list (felt * felt));
-  d_declare : list felt }.
+  d_declare0 : list (felt * N);             (* deprecated_declared_classes: class hash, delivered definition *)
+  d_declare1 : list (felt * (felt * N)) }.  (* declared_classes: class hash, (compiled class hash, definition) *)
+
+(* the class definitions a block brings for the hashes it declares, and the hashes RevertHead walks over *)
+Definition declared_defs (d : diff) : list (felt * N) :=
+  d_declare0 d ++ map (fun x => (fst x, snd (snd x))) (d_declare1 d).
+Definition declared_hashes (d : diff) : list felt := map fst (d_declare0 d) ++ map fst (d_declare1 d).
+(* ... since 007ff78 it also visits the class hashes of the block's deployed contracts *)
+Definition deployed_classes (d : diff) : list felt := map snd (d_deploy d).
+Definition revert_visits (d : diff) : list felt := declared_hashes d ++ deployed_classes d.
+
+(* putClass: a definition is written only when the hash has none yet (the first declaration stays) *)
+Definition add_classes {V : Type} (dl : list (N * V)) (cls : list (N * V)) : list (N * V) :=
+  fold_left (fun acc hd => match alookup (fst hd) acc with Some _ => acc | None => hd :: acc end) dl cls.
 
 Definition upd_contract (st : state) (a : addr) (f : cstate -> cstate) : state :=
   match alookup a st with
@@ -64,44 +87,65 @@ Definition apply_diff (st : state) (d : diff) : state :=
             (d_storage d) st3.
 
 (* ---------- blocks and the abstract chain ---------- *)
-Record tx := { t_hash : hash; t_reverted : bool; t_events : N }.
+Record tx := { t_hash : hash; t_reverted : bool; t_events : N;
+               t_pay : N;     (* the complete transaction object (opaque) *)
+               t_rpay : N }.  (* the complete receipt object apart from finality / block info (opaque) *)
 
 Record block := {
   b_number : N; b_hash : hash; b_parent : hash;
   b_txs : list tx;
   b_diff : diff;
   b_state : state;          (* the state after this block (C03's truth) *)
-  b_classes : list felt }.  (* classes declared up to and including this block *)
+  b_hpay : N;               (* the rest of the header (opaque) *)
+  b_extra : list (felt * N);     (* definitions delivered for class hashes the block references without declaring *)
+  b_classes : list (felt * N) }. (* class hash -> definition, for every class delivered up to and including this block *)
 
 Definition chain := list block.   (* head first *)
 
-Record world := { w_chain : chain; w_l1 : option N }.
+(* [w_orphans]: ghost bookkeeping for the one place where the class table can leave the chain: class hashes that a
+   reverted block had introduced through [b_extra] WITHOUT their being the class of one of its deployed contracts
+   (RevertHead walks the declared lists and the deployed contracts' classes). The synchroniser never delivers
+   such a definition (sync/data_source.go fetchUnknownClasses: deployed contracts and the two declared lists
+   only): see [delivered_like_sync]. *)
+Record world := { w_chain : chain; w_l1 : option N; w_orphans : list felt }.
 
 Inductive op :=
-| OStore (h : hash) (txs : list tx) (d : diff)
+| OStore (h : hash) (hp : N) (txs : list tx) (d : diff) (extra : list (felt * N))
 | ORevert
 | OSetL1 (n : N).
 
 Definition head_hash (c : chain) : hash := match c with [] => 0 | b :: _ => b_hash b end.
 Definition head_state (c : chain) : state := match c with [] => [] | b :: _ => b_state b end.
-Definition head_classes (c : chain) : list felt := match c with [] => [] | b :: _ => b_classes b end.
+Definition head_classes (c : chain) : list (felt * N) := match c with [] => [] | b :: _ => b_classes b end.
 
-Definition mk_block (n : N) (parent : hash) (st : state) (cls : list felt)
-                    (h : hash) (txs : list tx) (d : diff) : block :=
+Definition mk_block (n : N) (parent : hash) (st : state) (cls : list (felt * N))
+                    (h : hash) (hp : N) (txs : list tx) (d : diff) (extra : list (felt * N)) : block :=
   {| b_number := n; b_hash := h; b_parent := parent; b_txs := txs; b_diff := d;
-     b_state := apply_diff st d; b_classes := d_declare d ++ cls |}.
+     b_state := apply_diff st d; b_hpay := hp; b_extra := extra;
+     b_classes := add_classes (declared_defs d ++ extra) cls |}.
+
+(* the class hashes a block introduced through [b_extra] only (not visible below it) and that its revert does
+   not visit *)
+Definition new_extra (b : block) (below : list (felt * N)) : list felt :=
+  map fst (filter (fun hd => match alookup (fst hd) below with None => true | Some _ => false end
+                             && negb (mem (fst hd) (deployed_classes (b_diff b)))) (b_extra b)).
 
 Definition w_step (w : world) (o : op) : world :=
   match o with
-  | OStore h txs d =>
+  | OStore h hp txs d extra =>
       let c := w_chain w in
-      {| w_chain := mk_block (N.of_nat (length c)) (head_hash c) (head_state c) (head_classes c) h txs d :: c;
-         w_l1 := w_l1 w |}
-  | ORevert => {| w_chain := tl (w_chain w); w_l1 := w_l1 w |}
-  | OSetL1 n => {| w_chain := w_chain w; w_l1 := Some n |}
+      {| w_chain := mk_block (N.of_nat (length c)) (head_hash c) (head_state c) (head_classes c) h hp txs d extra :: c;
+         w_l1 := w_l1 w; w_orphans := w_orphans w |}
+  | ORevert =>
+      {| w_chain := tl (w_chain w); w_l1 := w_l1 w;
+         w_orphans := match w_chain w with
+                      | b :: r => new_extra b (head_classes r) ++ w_orphans w
+                      | [] => w_orphans w
+                      end |}
+  | OSetL1 n => {| w_chain := w_chain w; w_l1 := Some n; w_orphans := w_orphans w |}
   end.
 
-Definition w_init : world := {| w_chain := []; w_l1 := None |}.
+Definition w_init : world := {| w_chain := []; w_l1 := None; w_orphans := [] |}.
 Definition w_run (ops : list op) : world := fold_left w_step ops w_init.
 
 (* position of a transaction hash inside a block / the chain *)
@@ -130,12 +174,23 @@ Fixpoint nodup_hashes (l : list hash) : bool :=
 
 Definition op_ok (w : world) (o : op) : bool :=
   match o with
-  | OStore h txs _ =>
+  | OStore h _ txs d extra =>
       negb (h =? 0) && negb (mem h (map b_hash (w_chain w))) &&
       nodup_hashes (map t_hash txs) &&
-      forallb (fun t => match find_tx (w_chain w) (t_hash t) with None => true | Some _ => false end) txs
+      forallb (fun t => match find_tx (w_chain w) (t_hash t) with None => true | Some _ => false end) txs &&
+      (* the delivered definitions are a Go map keyed by class hash *)
+      nodup_hashes (map fst (declared_defs d ++ extra))
   | _ => true
   end.
+
+(* what the synchroniser's data source delivers besides the definitions of the declared classes: definitions
+   for the class hashes of the block's deployed contracts, nothing else *)
+Definition sync_like_op (o : op) : bool :=
+  match o with
+  | OStore _ _ _ d extra => forallb (fun hd => mem (fst hd) (deployed_classes d)) extra
+  | _ => true
+  end.
+Definition delivered_like_sync (ops : list op) : bool := forallb sync_like_op ops.
 
 Fixpoint ops_ok (w : world) (ops : list op) : bool :=
   match ops with
@@ -180,28 +235,70 @@ Inductive req :=
 | RTxByHash (h : hash) | RTxByIdx (id : block_id) (i : Z) | RReceipt (h : hash) | RTxStatus (h : hash)
 | RStateUpdate (id : block_id)
 | RStorageAt (id : block_id) (a : addr) (k : felt) | RNonce (id : block_id) (a : addr)
+| RStorageAtLU (id : block_id) (a : addr) (k : felt)   (* getStorageAt with INCLUDE_LAST_UPDATE_BLOCK (v0.10) *)
 | RClassHashAt (id : block_id) (a : addr) | RClassAt (id : block_id) (a : addr) | RClass (id : block_id) (ch : felt).
 
 Inductive err := BlockNotFound | TxnHashNotFound | ContractNotFound | InvalidTxnIndex | ClassHashNotFound
                | NoBlocks | InvalidParams | Internal.
 
+(* what the three block methods say about the block itself *)
+Record hdr := { hd_number : N; hd_hash : hash; hd_parent : hash; hd_status : status; hd_pay : N }.
+
+(* one entry of getBlockWithReceipts *)
+Record rcv := { rv_hash : hash; rv_status : status; rv_reverted : bool; rv_events : N; rv_tpay : N; rv_rpay : N }.
+
 Inductive answer :=
 | AErr (e : err)
 | ANum (n : N)
 | AHashNum (h : hash) (n : N)
-| ABlock (n : N) (h p : hash) (s : status) (txs : list hash)                       (* with tx hashes / with txs *)
-| ABlockR (n : N) (h p : hash) (s : status) (rcs : list (hash * status * bool * N)) (* with receipts *)
-| ATx (h : hash) (i : N)
-| AReceipt (h : hash) (bn : N) (bh : hash) (s : status) (reverted : bool) (events : N)
+| ABlock (hd : hdr) (txs : list hash)            (* with tx hashes *)
+| ABlockT (hd : hdr) (txs : list (hash * N))     (* with txs: hash, payload *)
+| ABlockR (hd : hdr) (rcs : list rcv)            (* with receipts *)
+| ATx (h : hash) (p : N)
+| AReceipt (h : hash) (bn : N) (bh : hash) (s : status) (reverted : bool) (events : N) (rp : N)
 | ATxStatus (s : status) (reverted : bool)
 | AStateUpdate (bh : hash) (d : diff)
 | AFelt (v : felt)
-| AClass (ch : felt).
+| AFeltAt (v : felt) (last_update : N)
+| AClass (def : N).
+
+Definition hdr_of (b : block) (s : status) : hdr :=
+  {| hd_number := b_number b; hd_hash := b_hash b; hd_parent := b_parent b; hd_status := s; hd_pay := b_hpay b |}.
+
+Definition rcv_of (s : status) (t : tx) : rcv :=
+  {| rv_hash := t_hash t; rv_status := s; rv_reverted := t_reverted t; rv_events := t_events t;
+     rv_tpay := t_pay t; rv_rpay := t_rpay t |}.
+
+Definition tx_view (t : tx) : hash * N := (t_hash t, t_pay t).
+
+(* the (transaction hash, transaction payload) pairs, (transaction hash, receipt payload) pairs and the header
+   an answer carries: what C08_payload_agree speaks about *)
+Definition answer_txs (a : answer) : list (hash * N) :=
+  match a with
+  | ABlockT _ txs => txs
+  | ABlockR _ rcs => map (fun r => (rv_hash r, rv_tpay r)) rcs
+  | ATx h p => [(h, p)]
+  | _ => []
+  end.
+
+Definition answer_rcs (a : answer) : list (hash * N) :=
+  match a with
+  | ABlockR _ rcs => map (fun r => (rv_hash r, rv_rpay r)) rcs
+  | AReceipt h _ _ _ _ _ rp => [(h, rp)]
+  | _ => []
+  end.
+
+Definition answer_hdr (a : answer) : option hdr :=
+  match a with
+  | ABlock hd _ | ABlockT hd _ | ABlockR hd _ => Some hd
+  | _ => None
+  end.
 
 Definition req_id (r : req) : option block_id :=
   match r with
   | RBlockWithTxHashes id | RBlockWithTxs id | RBlockWithReceipts id | RTxCount id | RTxByIdx id _
-  | RStateUpdate id | RStorageAt id _ _ | RNonce id _ | RClassHashAt id _ | RClassAt id _ | RClass id _ => Some id
+  | RStateUpdate id | RStorageAt id _ _ | RStorageAtLU id _ _ | RNonce id _ | RClassHashAt id _ | RClassAt id _
+  | RClass id _ => Some id
   | _ => None
   end.
 
@@ -214,33 +311,43 @@ Definition with_contract (b : block) (a : addr) (f : cstate -> answer) : answer 
 Definition slot (cs : cstate) (k : felt) : felt :=
   match alookup k (c_storage cs) with Some v => v | None => 0 end.
 
+(* last_update_block: the number of the highest block at or below n whose state diff writes slot k of a (0 if none) *)
+Definition writes (d : diff) (a : addr) (k : felt) : bool :=
+  existsb (fun akvs => (fst akvs =? a) && existsb (fun kv => fst kv =? k) (snd akvs)) (d_storage d).
+
+Fixpoint last_write (c : chain) (a : addr) (k : felt) (n : N) : N :=
+  match c with
+  | [] => 0
+  | b :: r => if (b_number b <=? n) && writes (b_diff b) a k then b_number b else last_write r a k n
+  end.
+
 (* The answer the property text demands, as a function of the abstract chain only. *)
 Definition spec_answer (w : world) (r : req) : answer :=
   let l1 := w_l1 w in
   match r with
   | RBlockNumber => match height (w_chain w) with Some n => ANum n | None => AErr NoBlocks end
   | RBlockHashAndNumber => match w_chain w with b :: _ => AHashNum (b_hash b) (b_number b) | [] => AErr NoBlocks end
-  | RBlockWithTxHashes id | RBlockWithTxs id =>
-      with_block w id (fun b => ABlock (b_number b) (b_hash b) (b_parent b) (finality (b_number b) l1)
-                                        (map t_hash (b_txs b)))
+  | RBlockWithTxHashes id =>
+      with_block w id (fun b => ABlock (hdr_of b (finality (b_number b) l1)) (map t_hash (b_txs b)))
+  | RBlockWithTxs id =>
+      with_block w id (fun b => ABlockT (hdr_of b (finality (b_number b) l1)) (map tx_view (b_txs b)))
   | RBlockWithReceipts id =>
       with_block w id (fun b =>
-        let s := finality (b_number b) l1 in
-        ABlockR (b_number b) (b_hash b) (b_parent b) s
-                (map (fun t => (t_hash t, s, t_reverted t, t_events t)) (b_txs b)))
+        let s := finality (b_number b) l1 in ABlockR (hdr_of b s) (map (rcv_of s) (b_txs b)))
   | RTxCount id => with_block w id (fun b => ANum (N.of_nat (length (b_txs b))))
-  | RTxByHash h => match find_tx (w_chain w) h with Some (_, i, t) => ATx (t_hash t) i | None => AErr TxnHashNotFound end
+  | RTxByHash h => match find_tx (w_chain w) h with Some (_, _, t) => ATx (t_hash t) (t_pay t) | None => AErr TxnHashNotFound end
   | RTxByIdx id i =>
       (* a negative index is invalid whatever the block (both faults may hold; the code checks this one first) *)
       if (i <? 0)%Z then AErr InvalidTxnIndex
       else with_block w id (fun b =>
         match nth_error (b_txs b) (Z.to_nat i) with
-        | Some t => ATx (t_hash t) (Z.to_N i)
+        | Some t => ATx (t_hash t) (t_pay t)
         | None => AErr InvalidTxnIndex
         end)
   | RReceipt h =>
       match find_tx (w_chain w) h with
       | Some (b, _, t) => AReceipt (t_hash t) (b_number b) (b_hash b) (finality (b_number b) l1) (t_reverted t) (t_events t)
+                                   (t_rpay t)
       | None => AErr TxnHashNotFound
       end
   | RTxStatus h =>
@@ -250,28 +357,72 @@ Definition spec_answer (w : world) (r : req) : answer :=
       end
   | RStateUpdate id => with_block w id (fun b => AStateUpdate (b_hash b) (b_diff b))
   | RStorageAt id a k => with_block w id (fun b => with_contract b a (fun cs => AFelt (slot cs k)))
+  | RStorageAtLU id a k =>
+      with_block w id (fun b => with_contract b a (fun cs =>
+        AFeltAt (slot cs k) (last_write (w_chain w) a k (b_number b))))
   | RNonce id a => with_block w id (fun b => with_contract b a (fun cs => AFelt (c_nonce cs)))
   | RClassHashAt id a => with_block w id (fun b => with_contract b a (fun cs => AFelt (c_class cs)))
   | RClassAt id a =>
       with_block w id (fun b => with_contract b a (fun cs =>
-        if mem (c_class cs) (b_classes b) then AClass (c_class cs) else AErr ContractNotFound))
-  | RClass id ch => with_block w id (fun b => if mem ch (b_classes b) then AClass ch else AErr ClassHashNotFound)
+        match alookup (c_class cs) (b_classes b) with Some def => AClass def | None => AErr ContractNotFound end))
+  | RClass id ch =>
+      with_block w id (fun b => match alookup ch (b_classes b) with Some def => AClass def | None => AErr ClassHashNotFound end)
+  end.
+
+(* The lowest block of the chain that delivers a definition for the class hash: (its number, the definition).
+   [spec_answer] reads [b_classes]; C08_class_exact states the visible classes of a block through this function. *)
+Definition delivered (b : block) : list (felt * N) := declared_defs (b_diff b) ++ b_extra b.
+
+Fixpoint class_decl (c : chain) (ch : felt) : option (N * N) :=
+  match c with
+  | [] => None
+  | b :: r => match class_decl r ch with
+              | Some x => Some x
+              | None => option_map (fun def => (b_number b, def)) (alookup ch (delivered b))
+              end
+  end.
+
+Definition class_visible (c : chain) (ch : felt) (n : N) : option N :=
+  match class_decl c ch with
+  | Some (at_, def) => if at_ <=? n then Some def else None
+  | None => None
   end.
 
 (* Where the handlers (as transcribed below) are known to leave the property text; the theorems exclude
    exactly these inputs, the harness reports them as violations under these names. *)
-Inductive deviation := DevNone | DevTxIdxAbsentNumber | DevStateZeroHash.
+Inductive deviation := DevNone | DevTxIdxAbsentNumber | DevStateZeroHash | DevOrphanClass.
 
 Definition is_state_req (r : req) : bool :=
-  match r with RStorageAt _ _ _ | RNonce _ _ | RClassHashAt _ _ | RClassAt _ _ | RClass _ _ => true | _ => false end.
+  match r with
+  | RStorageAt _ _ _ | RStorageAtLU _ _ _ | RNonce _ _ | RClassHashAt _ _ | RClassAt _ _ | RClass _ _ => true
+  | _ => false
+  end.
 
 Definition deviates (w : world) (r : req) : deviation :=
   match r with
   | RTxByIdx (Number n) i =>
       if (0 <=? i)%Z then match block_at (w_chain w) n with None => DevTxIdxAbsentNumber | Some _ => DevNone end
       else DevNone
-  | _ => if is_state_req r then match req_id r with Some (Hash 0) => DevStateZeroHash | _ => DevNone end
-         else DevNone
+  | _ =>
+      if is_state_req r then
+        match req_id r with
+        | Some (Hash 0) => DevStateZeroHash
+        | _ =>
+            (* a class hash that a reverted block had introduced without declaring it is still in the table *)
+            match r with
+            | RClass _ ch => if mem ch (w_orphans w) then DevOrphanClass else DevNone
+            | RClassAt id a =>
+                match resolve w id with
+                | Some b => match alookup a (b_state b) with
+                            | Some cs => if mem (c_class cs) (w_orphans w) then DevOrphanClass else DevNone
+                            | None => DevNone
+                            end
+                | None => DevNone
+                end
+            | _ => DevNone
+            end
+        end
+      else DevNone
   end.
 
 (* ====================== Part B: what the handlers consult, and the handlers ====================== *)
@@ -280,9 +431,27 @@ Record db := {
   db_blocks : list (N * block);       (* header + transactions + receipts + state update (+ state as of) by number *)
   db_hashix : list (hash * N);        (* BlockHeaderNumbersByHash *)
   db_txix : list (hash * (N * N));    (* TransactionBlockNumbersAndIndicesByHash *)
-  db_l1 : option N }.                 (* L1Height *)
+  db_l1 : option N;                   (* L1Height *)
+  db_classes : list (felt * (N * N)); (* Class bucket: class hash -> (declared at, definition) *)
+  db_sthist : list (addr * (felt * N)) }. (* ContractStorageHistory keys: (contract, slot, block number) *)
 
-Definition db_init : db := {| db_height := None; db_blocks := []; db_hashix := []; db_txix := []; db_l1 := None |}.
+Definition db_init : db :=
+  {| db_height := None; db_blocks := []; db_hashix := []; db_txix := []; db_l1 := None; db_classes := [];
+     db_sthist := [] |}.
+
+(* the history keys a block's storage diff produces *)
+Definition log_writes (n : N) (sto : list (addr * list (felt * felt))) : list (addr * (felt * N)) :=
+  flat_map (fun akvs => map (fun kv => (fst akvs, (fst kv, n))) (snd akvs)) sto.
+
+(* lastUpdatedBlockNumber(prefix, upTo): the greatest logged block number at or below upTo (None: math.MaxUint64,
+   i.e. no bound), 0 when there is none *)
+Fixpoint last_logged (l : list (addr * (felt * N))) (a : addr) (k : felt) (upto : option N) : N :=
+  match l with
+  | [] => 0
+  | (a', (k', m)) :: r =>
+      let x := last_logged r a k upto in
+      if (a =? a') && (k =? k') && (match upto with Some n => m <=? n | None => true end) then N.max m x else x
+  end.
 
 Definition db_head (d : db) : option block :=
   match db_height d with Some n => alookup n (db_blocks d) | None => None end.
@@ -294,17 +463,29 @@ Fixpoint index_txs (n : N) (i : N) (txs : list tx) : list (hash * (N * N)) :=
   end.
 
 (* blockchain/statebackend Store: verifyBlockSuccession puts the block at height+1 (0 on an empty chain) *)
-Definition db_store (d : db) (h : hash) (txs : list tx) (df : diff) : db :=
+Definition db_store (d : db) (h : hash) (hp : N) (txs : list tx) (df : diff) (extra : list (felt * N)) : db :=
   let n := match db_height d with Some m => m + 1 | None => 0 end in
   let b := match db_head d with
-           | Some p => mk_block n (b_hash p) (b_state p) (b_classes p) h txs df
-           | None => mk_block n 0 [] [] h txs df
+           | Some p => mk_block n (b_hash p) (b_state p) (b_classes p) h hp txs df extra
+           | None => mk_block n 0 [] [] h hp txs df extra
            end in
   {| db_height := Some n;
      db_blocks := (n, b) :: db_blocks d;
      db_hashix := (h, n) :: db_hashix d;
      db_txix := index_txs n 0 txs ++ db_txix d;
-     db_l1 := db_l1 d |}.
+     db_l1 := db_l1 d;
+     (* State.Update: putClass for every delivered definition, declared at this block, unless the hash has one *)
+     db_classes := add_classes (map (fun hd => (fst hd, (n, snd hd))) (declared_defs df ++ extra)) (db_classes d);
+     db_sthist := log_writes n (d_storage df) ++ db_sthist d |}.
+
+(* State.Revert / removeDeclaredClasses + removeDeployedContractClasses: for every visited hash (the block's two
+   declared lists, then the class hashes of its deployed contracts) the class is deleted when its record says it
+   was declared at this very block; a missing record is skipped; other delivered definitions are not visited *)
+Definition undeclare (n : N) (hs : list felt) (cls : list (felt * (N * N))) : list (felt * (N * N)) :=
+  fold_left (fun acc ch => match alookup ch acc with
+                           | Some (at_, _) => if at_ =? n then aremove ch acc else acc
+                           | None => acc
+                           end) hs cls.
 
 (* RevertHead + deleteBlockContent: header by number, number by hash, transactions/receipts and their hash
    index, state update are deleted; height becomes n-1 or is deleted for genesis. The L1 head is untouched. *)
@@ -319,16 +500,19 @@ Definition db_revert (d : db) : db :=
              db_blocks := aremove n (db_blocks d);
              db_hashix := aremove (b_hash b) (db_hashix d);
              db_txix := fold_left (fun ix t => aremove (t_hash t) ix) (b_txs b) (db_txix d);
-             db_l1 := db_l1 d |}
+             db_l1 := db_l1 d;
+             db_classes := undeclare n (revert_visits (b_diff b)) (db_classes d);
+             (* the history entries of the reverted block are deleted *)
+             db_sthist := filter (fun e => negb (snd (snd e) =? n)) (db_sthist d) |}
       end
   end.
 
 Definition db_step (d : db) (o : op) : db :=
   match o with
-  | OStore h txs df => db_store d h txs df
+  | OStore h hp txs df extra => db_store d h hp txs df extra
   | ORevert => db_revert d
   | OSetL1 n => {| db_height := db_height d; db_blocks := db_blocks d; db_hashix := db_hashix d;
-                   db_txix := db_txix d; db_l1 := Some n |}
+                   db_txix := db_txix d; db_l1 := Some n; db_classes := db_classes d; db_sthist := db_sthist d |}
   end.
 
 Definition db_run (ops : list op) : db := fold_left db_step ops db_init.
@@ -370,15 +554,31 @@ Definition number_by_id (d : db) (id : block_id) : option N :=
   | L1Accepted => l1_accepted_number d
   end.
 
-(* state readers: head readers answer zero for the storage of a missing contract, history readers NotFound *)
+(* state readers: head readers answer zero for the storage of a missing contract, history readers NotFound;
+   class reads go to the class table: a history reader (at block [r_num]) hides a class declared above its
+   block (stateHistory.Class), a head reader returns whatever the table holds *)
 Inductive rkind := RdHead | RdHist.
-Record reader := { r_kind : rkind; r_state : state; r_classes : list felt }.
+Record reader := { r_kind : rkind; r_state : state; r_num : N; r_cls : list (felt * (N * N));
+                   r_log : list (addr * (felt * N)) }.
+
+(* ContractStorageLastUpdatedBlock: a head reader searches without bound, a history reader up to its block *)
+Definition rd_last_update (r : reader) (a : addr) (k : felt) : N :=
+  last_logged (r_log r) a k (match r_kind r with RdHead => None | RdHist => Some (r_num r) end).
+
+Definition rd_class (r : reader) (ch : felt) : option N :=
+  match alookup ch (r_cls r) with
+  | Some (at_, def) => match r_kind r with
+                       | RdHead => Some def
+                       | RdHist => if r_num r <? at_ then None else Some def
+                       end
+  | None => None
+  end.
 
 Definition hist_reader_at (d : db) (n : N) : option reader :=
   (* pruner.RequireStateRetainedByBlockNumber: hash by number, then number by that hash *)
   match alookup n (db_blocks d) with
   | Some b => match alookup (b_hash b) (db_hashix d) with
-              | Some _ => Some {| r_kind := RdHist; r_state := b_state b; r_classes := b_classes b |}
+              | Some _ => Some {| r_kind := RdHist; r_state := b_state b; r_num := n; r_cls := db_classes d; r_log := db_sthist d |}
               | None => None
               end
   | None => None
@@ -386,11 +586,11 @@ Definition hist_reader_at (d : db) (n : N) : option reader :=
 
 Definition head_reader (d : db) : option reader :=
   match db_head d with
-  | Some b => Some {| r_kind := RdHead; r_state := b_state b; r_classes := b_classes b |}
+  | Some b => Some {| r_kind := RdHead; r_state := b_state b; r_num := b_number b; r_cls := db_classes d; r_log := db_sthist d |}
   | None => None
   end.
 
-Definition empty_reader : reader := {| r_kind := RdHead; r_state := []; r_classes := [] |}.
+Definition empty_reader : reader := {| r_kind := RdHead; r_state := []; r_num := 0; r_cls := []; r_log := [] |}.
 
 (* stateByBlockID; StateAtBlockHash special-cases the zero hash: the legacy backend opens an empty state, the
    new backend a reader whose contract/class reads go to the flat (head) state *)
@@ -405,7 +605,7 @@ Definition state_by_id (be : backend) (d : db) (id : block_id) : option reader :
         end
       else match alookup h (db_hashix d) with
            | Some n => match alookup n (db_blocks d) with
-                       | Some b => Some {| r_kind := RdHist; r_state := b_state b; r_classes := b_classes b |}
+                       | Some b => Some {| r_kind := RdHist; r_state := b_state b; r_num := n; r_cls := db_classes d; r_log := db_sthist d |}
                        | None => None
                        end
            | None => None
@@ -442,8 +642,17 @@ Definition h_block_with_tx_hashes (d : db) (id : block_id) : answer :=
       (* transactions are read by the header's number *)
       match alookup (b_number hd) (db_blocks d) with
       | None => AErr BlockNotFound
-      | Some b => ABlock (b_number hd) (b_hash hd) (b_parent hd) (status_of (b_number hd) (db_l1 d))
-                         (map t_hash (b_txs b))
+      | Some b => ABlock (hdr_of hd (status_of (b_number hd) (db_l1 d))) (map t_hash (b_txs b))
+      end
+  end.
+
+Definition h_block_with_txs (d : db) (id : block_id) : answer :=
+  match block_by_id d id with
+  | None => AErr BlockNotFound
+  | Some hd =>
+      match alookup (b_number hd) (db_blocks d) with
+      | None => AErr BlockNotFound
+      | Some b => ABlockT (hdr_of hd (status_of (b_number hd) (db_l1 d))) (map tx_view (b_txs b))
       end
   end.
 
@@ -451,9 +660,7 @@ Definition h_block_with_receipts (d : db) (id : block_id) : answer :=
   match block_by_id d id with
   | None => AErr BlockNotFound
   | Some b =>
-      let s := status_of (b_number b) (db_l1 d) in
-      ABlockR (b_number b) (b_hash b) (b_parent b) s
-              (map (fun t => (t_hash t, s, t_reverted t, t_events t)) (b_txs b))
+      let s := status_of (b_number b) (db_l1 d) in ABlockR (hdr_of b s) (map (rcv_of s) (b_txs b))
   end.
 
 Definition h_tx_count (v : ver) (d : db) (id : block_id) : answer :=
@@ -475,7 +682,7 @@ Definition h_tx_by_hash (d : db) (h : hash) : answer :=
   match alookup h (db_txix d) with
   | None => AErr TxnHashNotFound
   | Some (n, i) => match tx_at d n i with
-                   | Some t => ATx (t_hash t) i
+                   | Some t => ATx (t_hash t) (t_pay t)
                    | None => AErr TxnHashNotFound
                    end
   end.
@@ -487,7 +694,7 @@ Definition h_tx_by_idx (d : db) (id : block_id) (i : Z) : answer :=
   else match number_by_id d id with
        | None => AErr BlockNotFound
        | Some n => match tx_at d n (Z.to_N i) with
-                   | Some t => ATx (t_hash t) (Z.to_N i)
+                   | Some t => ATx (t_hash t) (t_pay t)
                    | None => AErr InvalidTxnIndex
                    end
        end.
@@ -500,6 +707,7 @@ Definition h_receipt (d : db) (h : hash) : answer :=
       | None => AErr TxnHashNotFound
       | Some b => match nth_error (b_txs b) (N.to_nat i) with
                   | Some t => AReceipt (t_hash t) n (b_hash b) (status_of n (db_l1 d)) (t_reverted t) (t_events t)
+                                       (t_rpay t)
                   | None => AErr TxnHashNotFound
                   end
       end
@@ -546,6 +754,17 @@ Definition h_storage_at (v : ver) (be : backend) (d : db) (id : block_id) (a : a
       end
   end.
 
+(* v0.10 with INCLUDE_LAST_UPDATE_BLOCK: the same value logic, then ContractStorageLastUpdatedBlock on the same reader *)
+Definition h_storage_at_lu (be : backend) (d : db) (id : block_id) (a : addr) (k : felt) : answer :=
+  match state_by_id be d id with
+  | None => AErr BlockNotFound
+  | Some r =>
+      match h_storage_at V10 be d id a k with
+      | AFelt val => AFeltAt val (rd_last_update r a k)
+      | x => x
+      end
+  end.
+
 Definition h_nonce (be : backend) (d : db) (id : block_id) (a : addr) : answer :=
   match state_by_id be d id with
   | None => AErr BlockNotFound
@@ -561,7 +780,7 @@ Definition h_class_hash_at (be : backend) (d : db) (id : block_id) (a : addr) : 
 Definition h_class (be : backend) (d : db) (id : block_id) (ch : felt) : answer :=
   match state_by_id be d id with
   | None => AErr BlockNotFound
-  | Some r => if mem ch (r_classes r) then AClass ch else AErr ClassHashNotFound
+  | Some r => match rd_class r ch with Some def => AClass def | None => AErr ClassHashNotFound end
   end.
 
 Definition h_class_at (be : backend) (d : db) (id : block_id) (a : addr) : answer :=
@@ -582,7 +801,8 @@ Definition handle (v : ver) (be : backend) (d : db) (r : req) : answer :=
   match r with
   | RBlockNumber => h_block_number d
   | RBlockHashAndNumber => h_block_hash_and_number d
-  | RBlockWithTxHashes id | RBlockWithTxs id => h_block_with_tx_hashes d id
+  | RBlockWithTxHashes id => h_block_with_tx_hashes d id
+  | RBlockWithTxs id => h_block_with_txs d id
   | RBlockWithReceipts id => h_block_with_receipts d id
   | RTxCount id => h_tx_count v d id
   | RTxByHash h => h_tx_by_hash d h
@@ -591,6 +811,7 @@ Definition handle (v : ver) (be : backend) (d : db) (r : req) : answer :=
   | RTxStatus h => h_tx_status d h
   | RStateUpdate id => h_state_update d id
   | RStorageAt id a k => h_storage_at v be d id a k
+  | RStorageAtLU id a k => match v with V10 => h_storage_at_lu be d id a k | _ => AErr InvalidParams end
   | RNonce id a => h_nonce be d id a
   | RClassHashAt id a => h_class_hash_at be d id a
   | RClassAt id a => h_class_at be d id a
@@ -599,5 +820,10 @@ Definition handle (v : ver) (be : backend) (d : db) (r : req) : answer :=
 
 (* the property predicate the harness evaluates on an observed answer: it must be the answer demanded by
    the chain (for v0.8 and l1_accepted: the tag does not exist in that specification) *)
+Definition flags_unknown (v : ver) (r : req) : bool :=
+  match r, v with RStorageAtLU _ _ _, V10 => false | RStorageAtLU _ _ _, _ => true | _, _ => false end.
+
 Definition expected (v : ver) (w : world) (r : req) : answer :=
-  if (match v with V8 => uses_l1_accepted r | _ => false end) then AErr InvalidParams else spec_answer w r.
+  if (match v with V8 => uses_l1_accepted r | _ => false end) then AErr InvalidParams
+  else if flags_unknown v r then AErr InvalidParams   (* response_flags exist from v0.10 on *)
+  else spec_answer w r.
